@@ -11,6 +11,10 @@
 //!     enumerated);
 //!   - the request "everything" (all glyph ids and all mapped characters);
 //!   - the singles layer: every glyph id alone and every mapped character alone;
+//!   - the loca format boundary family (see `loca_boundary_family`): for fonts whose glyf data exceeds
+//!     64 KiB, the prefixes "glyph ids 0..=j" for j within ±4 of where the subset's padded / unpadded glyf
+//!     total reaches 0x10000 and 0x1FFFF, under {DEFAULT, RETAIN_GIDS, NO_HINTING} (8 flag sets and a
+//!     second pass in thorough);
 //! * flags: all 2^5 combinations of {NO_HINTING, RETAIN_GIDS, SET_OVERLAPS_FLAG, NOTDEF_OUTLINE,
 //!   GLYPH_NAMES} (singles layer: default only in quick, 3 combinations in thorough);
 //! * for every case the subset is produced, verified against the original, then subset *again* with the
